@@ -147,6 +147,10 @@ def request(channel, name, ns=M.TNS):
     if channel == 'msgpack':
         import msgpack
         return dict(method='POST', path='/', qs='', body=msgpack.packb({name: {}}), content_type='application/x-msgpack')
+    if channel == 'msgpack-odd':
+        # the single key of the request map holding something that is not the text of a name: `name` is the key object itself
+        import msgpack
+        return dict(method='POST', path='/', qs='', body=msgpack.packb({name: {}}, use_bin_type=True), content_type='application/x-msgpack')
     if channel == 'msgpackrpc-odd':
         # the name field of a msgpack-rpc request holding something that is not a name: `name` is the packed object itself
         import msgpack
@@ -286,6 +290,13 @@ def run_app(R, seed, aid, tier):
                         for odd in ([name], [name, name], [], {name: 1}, name.encode() + b'\xff', [[name]], 5, None, True, [name.encode()]):
                             R.count('odd_name_kinds')
                             one(R, wsgi, calls, 'msgpackrpc-odd', odd, M.TNS, None, repro, None, pi)
+                    if channel in ('msgpack', 'msgpack-bkeys'):
+                        # binary keys that are a registered name plus bytes that are no text in any encoding
+                        nb = name.encode()
+                        for odd in (nb + b'\xff', b'\xff' + nb, nb[:1] + b'\xfe' + nb[1:], nb + b'\x80', b'\xc3' + nb, nb + b'\xc3', nb + b'\x00',
+                                    b'\xef\xbb\xbf' + nb):
+                            R.count('odd_name_kinds')
+                            one(R, wsgi, calls, 'msgpack-odd', odd, M.TNS, None, repro, None, pi)
                     if kind in ('xml', 'soap11', 'soap12'):
                         one(R, wsgi, calls, channel, name, 'urn:vf:other', None, repro, None, pi)
                         one(R, wsgi, calls, channel, name, M.TNS + 'x', None, repro, None, pi)
